@@ -204,9 +204,22 @@ def check_who_may_call(model, rep):
     # single dependent and is not placed before the destination; the fallback runs iff one of the two holds or the call answered NotImplemented
     import itertools
     from sa.boolnf import formula as _formula
-    KA, KB = _formula(ast.parse('self.ndependents[evaluable] > 1', mode='eval').body), _formula(ast.parse('evaluable_block_id < out_block_id', mode='eval').body)
+    import sa.boolnf as _B
+
+    def _formula_int(e):     # counts and block ids are totally ordered: `a <= b` is `not b < a`
+        old_, _B.TOTAL_ORDER = _B.TOTAL_ORDER, True
+        try:
+            return _formula(e)
+        finally:
+            _B.TOTAL_ORDER = old_
+    KA, KB = _formula_int(ast.parse('self.ndependents[evaluable] > 1', mode='eval').body), _formula_int(ast.parse('evaluable_block_id < out_block_id', mode='eval').body)
+
+    _REL = {ast.Lt: ('lt',), ast.LtE: ('lt', 'eq'), ast.Gt: ('gt',), ast.GtE: ('gt', 'eq'), ast.Eq: ('eq',), ast.NotEq: ('lt', 'gt')}
 
     class _Unknown(Exception):
+        pass
+
+    class _Done(Exception):
         pass
 
     def bev(e, env, val, st):
@@ -228,12 +241,20 @@ def check_who_may_call(model, rep):
             if inplace and isinstance(e.ops[0], (ast.Is, ast.IsNot, ast.Eq, ast.NotEq)) and 'NotImplemented' in (src(e.left), src(e.comparators[0])):
                 st['evaluated'] += 1
                 return val['C'] == isinstance(e.ops[0], (ast.Is, ast.Eq))
-            f_ = _formula(ast.parse(src(deep_resolved(b.node, e)), mode='eval').body) if False else _formula(e)
-            for key, nm in ((KA, 'A'), (KB, 'B')):
-                if f_ == key:
-                    return val[nm]
-                if f_ == ('not', key):
-                    return not val[nm]
+            # an order comparison of the two quantities the decision depends on, in any spelling: decided from their order relation
+            l_, r_ = src(e.left), src(e.comparators[0])
+            if type(e.ops[0]) in _REL:
+                ND = 'self.ndependents[evaluable]'
+                for a__, b__, flip in ((e.left, e.comparators[0], False), (e.comparators[0], e.left, True)):
+                    if src(a__) == ND and isinstance(const(b__), int) and not isinstance(const(b__), bool):
+                        n_, k_ = val['A'], const(b__)       # the number of dependents against a literal
+                        rel = 'lt' if n_ < k_ else 'eq' if n_ == k_ else 'gt'
+                        if flip:
+                            rel = {'lt': 'gt', 'gt': 'lt', 'eq': 'eq'}[rel]
+                        return rel in _REL[type(e.ops[0])]
+                if {l_, r_} == {'evaluable_block_id', 'out_block_id'}:
+                    rel = val['B'] if l_ == 'evaluable_block_id' else {'lt': 'gt', 'gt': 'lt', 'eq': 'eq'}[val['B']]
+                    return rel in _REL[type(e.ops[0])]
             if src(e) == "mode == 'assign'" or src(e) == "mode == 'iadd'":
                 return True
         raise _Unknown(src(e))
@@ -243,6 +264,8 @@ def check_who_may_call(model, rep):
             return any(isinstance(c, ast.Call) and (method_name(c) == '_compile_with_out' or src(c.func) == 'self.compile') for c in ast.walk(node)) or \
                 any(isinstance(n_, ast.Name) and n_.id in env for n_ in ast.walk(node))
         for s_ in stmts:
+            if isinstance(s_, ast.Return) and s_.value is None:
+                raise _Done()
             if isinstance(s_, ast.If):
                 try:
                     taken = bev(s_.test, env, val, st)
@@ -261,23 +284,41 @@ def check_who_may_call(model, rep):
                     st['fallback'] += 1
     wrong = None
     try:
-        for a_, b_, c_ in itertools.product((False, True), repeat=3):
+        for ra_, rb_, c_ in itertools.product((0, 1, 2, 3), ('lt', 'eq', 'gt'), (False, True)):
+            a_, b_ = ra_ > 1, rb_ == 'lt'     # several dependents; placed before the destination
             st = {'evaluated': 0, 'fallback': 0}
-            bexec(b.body, {}, {'A': a_, 'B': b_, 'C': c_}, st)
-            want_eval = not a_ and not b_
-            want_fb = a_ or b_ or c_
-            if (st['evaluated'] > 0) != want_eval or (st['fallback'] > 0) != want_fb or st['evaluated'] > 1:
+            try:
+                bexec(b.body, {}, {'A': ra_, 'B': rb_, 'C': c_}, st)
+            except _Done:
+                pass
+            # safety, not optimality: the in-place protocol may be entered only for a single dependent that is not placed before the destination
+            # (declining more often merely copies); the fallback runs exactly when the protocol was not entered or answered NotImplemented
+            ev_ = st['evaluated'] > 0
+            if (ev_ and (a_ or b_)) or st['evaluated'] > 1 or (st['fallback'] > 0) != (not ev_ or c_):
                 wrong = wrong or (a_, b_, c_, st)
     except _Unknown as e:
         raise AnalysisError(f'_BlockTreeBuilder.compile_with_out: the escape test was not found (unrecognised test `{e}`)')
-    ifs = [s for s in ast.walk(b.node) if isinstance(s, ast.If) and any(isinstance(c, ast.Call) and src(c.func) == 'self.compile' for x in s.body for c in ast.walk(x))]
-    if not ifs:
+    # the fallback: the statement list that holds `... = self.compile(evaluable)` (the body of the escape test, or the rest of the function after an early return)
+    def holder(stmts):
+        for i_, s_ in enumerate(stmts):
+            if not isinstance(s_, (ast.If, ast.For, ast.While, ast.With, ast.Try)) and any(isinstance(c, ast.Call) and src(c.func) == 'self.compile' for c in ast.walk(s_)):
+                return stmts[i_:]
+            for fld in ('body', 'orelse', 'finalbody'):
+                sub = getattr(s_, fld, None)
+                if isinstance(sub, list) and sub and isinstance(sub[0], ast.stmt):
+                    r_ = holder(sub)
+                    if r_:
+                        return r_
+        return None
+    fb = holder(b.body)
+    if not fb:
         raise AnalysisError('_BlockTreeBuilder.compile_with_out: the fallback branch was not found')
+    ifs = [fb[0]]
     ok = wrong is None
     rep.ob('R02.3', b.key, b.where(ifs[0]), ok, 'in-place compilation is tried only for a term with a single dependent that is not placed before the destination; NotImplemented falls back' if ok else
            f'with (several dependents, placed before the destination, answered NotImplemented) = {wrong[:3]} the in-place protocol of the term is ' + ('' if wrong[3]['evaluated'] else 'not ') +
            'entered and the copy/add fallback is ' + ('' if wrong[3]['fallback'] else 'not ') + 'emitted; it must try `ndependents > 1`, `block before destination` before the in-place call and treat NotImplemented as fallback', statement='escape-order')
-    body = ifs[0].body
+    body = fb
     txt = ' ; '.join(src(s) for s in body)
     ok = 'value = self.compile(evaluable)' in txt and 'block.array_copy(out, value)' in txt and 'block.array_iadd(out, value)' in txt and "mode == 'assign'" in txt and "mode == 'iadd'" in txt and 'raise ValueError' in txt
     rep.ob('R02.3', b.key, b.where(ifs[0]), ok, 'the fallback copies (assign) or adds (iadd) the separately compiled value and rejects other modes' if ok else 'the copy/iadd fallback of compile_with_out changed', statement='fallback')
